@@ -239,7 +239,7 @@ type account struct {
 
 type histStats struct {
 	okChanges, failedChanges, accountsAtOkChange int
-	legacyBeforeChange, coldChange                bool // cold = change attempted with no password held in memory (after restart)
+	legacyBeforeChange, coldChange               bool // cold = change attempted with no password held in memory (after restart)
 }
 
 func runHistory(t lib.TB, c hcase) (st histStats) {
